@@ -386,7 +386,9 @@ def Aligned (d : Int) (s : Store) : Prop :=
     s.times = gridTimes s.start d n ∧
     ∀ m v vals, s.get m v = some vals → vals.length = n
 
-theorem resize_step (d : Int) (hd : 0 < d) (s : Store) (hA : Aligned d s) (ns ne : Int)
+/-- one `resize` call on an equidistant object (any window on its grid): values at the surviving
+    stamps are kept, new stamps hold NaN, the object stays aligned -/
+theorem C11_resize_one_call (d : Int) (hd : 0 < d) (s : Store) (hA : Aligned d s) (ns ne : Int)
     (a b : Int) (ha : ns = s.start + a * d) (hb : ne = s.stop + b * d) (hle : ns ≤ ne) :
     ∃ s', resize ns ne s = some s' ∧ s'.start = ns ∧ s'.stop = ne ∧ Aligned d s' ∧
       ∀ m v vals, s.get m v = some vals →
@@ -523,7 +525,7 @@ theorem C11_resize_keeps_values (d : Int) (hd : 0 < d) (ws : List (Int × Int)) 
   | cons w ws ih =>
     intro s hA hok
     obtain ⟨⟨a, ha⟩, ⟨b, hb⟩, hle, hrest⟩ := hok
-    obtain ⟨s1, hr, hs1, he1, hA1, hv1⟩ := resize_step d hd s hA w.1 w.2 a b ha hb hle
+    obtain ⟨s1, hr, hs1, he1, hA1, hv1⟩ := C11_resize_one_call d hd s hA w.1 w.2 a b ha hb hle
     obtain ⟨s2, hr2, hA2, hv2⟩ := ih s1 hA1 (by rw [hs1, he1]; exact hrest)
     refine ⟨s2, by simp only [resizeSeq, hr]; exact hr2, hA2, ?_⟩
     intro m v vals hsv
